@@ -94,6 +94,19 @@ def cases(seed, tier):
             pol['hostkey_sizes'] = hs
         if rng.random() < 0.5:
             pol['dh_modulus_sizes'] = {GEX: gex_size + rng.choice([0, 0, -512, 1024])}
+            rd = gen.case_rng(seed, ID, i, 'dhmap')
+            if rd.random() < 0.4:
+                # a map with several entries, some for group-exchange algorithms this peer does not offer (they sort before and after the
+                # one it offers): an entry without a measurement is skipped, the others are still compared
+                extra = rd.sample(['diffie-hellman-group-exchange-sha1', 'diffie-hellman-group-exchange-sha224@ssh.com', 'diffie-hellman-group-exchange-sha512@ssh.com',
+                                   'a-group-exchange@example.com', 'z-group-exchange@example.com'], rd.randrange(1, 4))
+                m = dict(pol['dh_modulus_sizes'])
+                for e in extra:
+                    if e not in prof['kex']:
+                        m[e] = rd.choice([1024, 2048, 4096])
+                items = list(m.items())
+                rd.shuffle(items)
+                pol['dh_modulus_sizes'] = dict(items)
         if rng.random() < 0.2:
             pol['banner'] = prof['banner'] if rng.random() < 0.6 else 'SSH-2.0-Other_1.0'
         if rng.random() < 0.2:
